@@ -561,7 +561,57 @@ func (c *SpecCtx) quant(e *EQuant) (Term, error) {
 	} else if len(ranges) > 0 {
 		body = and(append(ranges, body)...)
 	}
+	if len(e.Vars) == 1 {
+		if pats := inferPatterns(body, "q_"+e.Vars[0][0]); len(pats) > 0 {
+			var ps []string
+			for _, p := range pats {
+				ps = append(ps, ":pattern ("+p+")")
+			}
+			body = fmt.Sprintf("(! %s %s)", body, strings.Join(ps, " "))
+		}
+	}
 	return Term{fmt.Sprintf("(%s (%s) %s)", q, strings.Join(binders, " "), body), "Bool", nil}, nil
+}
+
+// inferPatterns picks E-matching triggers for a single bound variable v: the innermost applications
+// of select / uninterpreted functions that take v directly (or v plus a constant offset term) as argument.
+func inferPatterns(body, v string) []string {
+	n, _ := readSx(body)
+	if n == nil {
+		return nil
+	}
+	seen := map[string]bool{}
+	var out []string
+	var walk func(x *sx)
+	walk = func(x *sx) {
+		if x.list == nil || len(x.list) == 0 {
+			return
+		}
+		head := x.list[0].atom
+		direct := false
+		for _, a := range x.list[1:] {
+			if a.list == nil && a.atom == v {
+				direct = true
+			}
+		}
+		arith := map[string]bool{"+": true, "-": true, "*": true, "<": true, "<=": true, ">": true, ">=": true, "=": true, "and": true, "or": true, "not": true, "=>": true, "ite": true, "div": true, "mod": true, "distinct": true}
+		if direct && head != "" && !arith[head] && !strings.HasPrefix(head, "(") {
+			s := x.String()
+			if !seen[s] && !strings.Contains(s, "(forall") && !strings.Contains(s, "(let") {
+				seen[s] = true
+				out = append(out, s)
+			}
+			return
+		}
+		for _, a := range x.list {
+			walk(a)
+		}
+	}
+	walk(n)
+	if len(out) > 4 {
+		out = out[:4]
+	}
+	return out
 }
 
 // sortFromText maps a type written in a spec (Go basic type or SMT sort) to a sort.
